@@ -24,11 +24,13 @@ def instances(tier):
     out = []
     for ns in ((2, 3) if tier == "quick" else (2, 3, 4, 5)):
         out.append(Inst(ob="O1", name="sort_n%d" % ns, harness="c03_sort.c", defs={"VK_NS": ns, "VK_QSORT_MAX": ns},
-                        models=["models/vin.c", "models/msg.c", "models/qsort.c"], native_srcs=["lib/src/tldevel.c", "lib/src/tlrng.c"],
-                        unwind=max(ns + 2, 5), nb=3 * ns, ni=ns, timeout=900, mem_gb=6,
+                        models=["models/vin.c", "models/msg.c", "models/qsort.c", "models/str.c"], native_srcs=["lib/src/tldevel.c", "lib/src/tlrng.c"],
+                        unwind=max(ns + 2, 18), nb=3 * ns, ni=ns, timeout=900, mem_gb=6,
                         funcs=["sort_by_len_name", "sort_by_rank", "msa_sort_len_name", "msa_sort_rank"], cost=ns ** 2,
                         bound="%d records, any int lengths, any distinct 2-byte names, any permutation" % ns,
                         desc="canonical sort is permutation invariant; comparator laws"))
     for ns in ((3,) if tier == "quick" else (3, 4, 5)):
         out.append(upgma_inst(1, ns, "O3", "upgma"))
+    from vk.props.C12 import dist_instances
+    out += dist_instances(tier, ob="O2")     # distances do not read the caller's rank
     return out
